@@ -1119,7 +1119,18 @@ class Engine:
         h = EXTERNALS.get(name)
         if h is not None: return h(self, st, work, fr, ins, args)
         if name.startswith('llvm.'):
-            if name.startswith('llvm.lifetime') or name.startswith('llvm.experimental.noalias') or name.startswith('llvm.assume') or name.startswith('llvm.dbg') or name.startswith('llvm.invariant'): return None
+            if name.startswith('llvm.lifetime'):
+                # the storage of a local is dead between lifetime.end and the next lifetime.start: touching it is a use after scope
+                p = args[1]
+                if type(p) is tuple and p[1] == 0:
+                    o = st.mem.get(p[0])
+                    if o is not None and o.kind == 'stack':
+                        if p[0] not in st.own:
+                            o = o.clone(); st.mem[p[0]] = o; st.own.add(p[0])
+                        if name.startswith('llvm.lifetime.end'): o.freed = True; o.cells = {}
+                        else: o.freed = False
+                return None
+            if name.startswith('llvm.experimental.noalias') or name.startswith('llvm.assume') or name.startswith('llvm.dbg') or name.startswith('llvm.invariant'): return None
             if name.startswith('llvm.memset'): return self.x_memset(st, args)
             if name.startswith('llvm.memcpy') or name.startswith('llvm.memmove'): return self.x_memcpy(st, args)
             if name.startswith('llvm.expect'): return args[0]
